@@ -7,7 +7,7 @@ import warnings
 from hypothesis import strategies as st
 
 from .. import fakedul as fd, refcmd, svc
-from ..common import Violation, HarnessError, hyp_search, parallel, lib_frame
+from ..common import Violation, HarnessError, hyp_search, parallel, lib_frame, quiet_warnings
 
 LEVEL = 'exploration'
 PROP = 'C14'
@@ -701,7 +701,7 @@ def run_loopback(ctx, n_rounds):
 
 # ------------------------------------------------------------------------------------------------
 def run(ctx):
-    warnings.simplefilter('ignore')
+    quiet_warnings()
     ctx.rule = ('acceptor refusing with every standard (result, source, reason) triple and Hypothesis triples over '
                 '0-255^3; requester rejected with the same triples; peer A-ABORT (standard and generated source/reason) '
                 'or A-RELEASE-RQ arriving before any DIMSE exchange, between two exchanges, inside a half-consumed '
@@ -770,7 +770,7 @@ def run(ctx):
 
 
 def replay(case):
-    warnings.simplefilter('ignore')
+    quiet_warnings()
     k = case['kind']
     if k == 'acceptor-reject':
         acceptor_reject(tuple(case['triple']))
